@@ -48,6 +48,16 @@ def book_mc(ck, name, inv=ALL_INV, act=ALL_ACT, timeout=600, workers=12, **kw):
     return ck.mc(name, "Book", bc(**kw), invariants=inv, properties=act, timeout=timeout, workers=workers)
 
 
+IMPL_INV = ["Inv_Refines", "Inv_ImplConsistent", "Inv_Keys"]
+
+
+def impl_mc(ck, name, timeout=600, workers=12, **kw):
+    """Refinement check: the implementation-shaped model (BookImpl.tla: keyed priority map, per-price map, total volume,
+    matching loop) driven in lock-step with the reference engine; TLC checks Matches / ImplConsistent after every call."""
+    c = bc(**dict(dict(FixTies=True, NLevels=2), **kw))
+    return ck.mc(name, "BookImplMC", c, invariants=IMPL_INV, properties=(), timeout=timeout, workers=workers)
+
+
 def setup():
     core.build_harness()
     core.build_pyext()
@@ -88,6 +98,10 @@ def c02(tier, seed):
     inv = ["Inv_C02_ViewsAgree", "Inv_C02_ViewsConsistent", "Inv_C02_NotCrossed", "Inv_C12_LevelsAccount", "Inv_C01_QueueSorted"]
     book_mc(ck, "mc_views", inv=inv, act=[], Ops=["cap", "cancel", "modify", "disable", "enable"], Dts=[1], NLevels=3,
             ModPrices=[-1, 10, 12], ModVols=MODV, MaxOrders=3, MaxOps=4 if q else 5, timeout=300 if q else 1200)
+    # the views as the getters compute them from the incrementally maintained structures (BookImpl.tla) equal the
+    # views of the reference engine after every call
+    impl_mc(ck, "mc_impl_views", Ops=["cap", "cancel", "modify", "disable", "enable"], Dts=[1], Discipline=True, Tick=2, NLevels=3,
+            Prices=[10, 12, 14], ModPrices=[-1, 14], ModVols=["smaller", "larger"], MaxOrders=3, MaxOps=4, timeout=300 if q else 1200)
     # views are part of the projection: every state of every history, levels spanning the alphabet, tick 2
     book_gen(ck, "gen_views", cfg=GEN, Ops=["cap", "cancel", "modify", "disable", "enable"], Tick=2, NLevels=3,
              Prices=[10, 12, 14], ModPrices=[-1, 14], ModVols=["smaller", "larger"], Kinds=["L"] if q else ["L", "M"],
@@ -146,6 +160,10 @@ def c05(tier, seed):
     # the specification (positional FIFO queue) keeps every clause without the clock discipline
     book_mc(ck, "mc_ties", Ops=["cap", "cancel", "modify"], Dts=[0], Discipline=False, Prices=[10, 11], ModPrices=[-1, 10, 11],
             ModVols=["none", "smaller", "larger"], MaxOrders=3, MaxOps=4 if q else 5, timeout=300 if q else 1200)
+    # the repaired keying of the code (key time = max(clock, last key time at that price + 1)) refines the reference engine
+    # when nothing advances the clock; the three incremental structures stay consistent
+    impl_mc(ck, "mc_impl_ties", Ops=["cap", "cancel", "modify", "reload"], Dts=[0] if q else [0, 1], Discipline=False, Prices=[10, 11],
+            ModPrices=[-1, 10, 11], ModVols=["none", "smaller", "equal", "larger"], MaxOrders=3, MaxOps=4, timeout=300 if q else 1200)
     # C01 alphabet, the clock never advances: every queue insertion ties
     book_gen(ck, "gen_ties_cap_cancel", Ops=["cap", "cancel"], Dts=[0], Discipline=False, MaxOrders=3 if q else 4, MaxOps=4 if q else 5,
              need=("has_trade", "dt0", "resting_partially_filled_or_resized"), timeout=300 if q else 1500)
@@ -206,6 +224,9 @@ def c07(tier, seed):
     book_gen(ck, "gen_reload_off_new", Ops=["create", "cap", "place", "disable", "enable", "reload"], Prices=[10], Vols=[1, 2],
              NLevels=1 if q else 7, MaxOrders=2, MaxOps=4 if q else 5, trunc_every=40 if q else 4,
              need=("op_reload", "rejected_order", "unplaced_order", "trading_off"), timeout=300 if q else 1500)
+    # the restore path (both sides rebuilt from the Active entries' stored keys) in the implementation-shaped model
+    impl_mc(ck, "mc_impl_reload", Ops=["cap", "cancel", "modify", "reload"], Dts=[1], Discipline=True, Prices=[10, 11], Vols=[1, 2],
+            ModPrices=[-1, 11], ModVols=["smaller", "larger"], MaxOrders=3, MaxOps=4 if q else 5, timeout=300 if q else 1200)
     prof = {"discipline": True, "audit_every": 25, "w": {"reload": 3, "toggle": 0.4, "modify": 3}}
     ck.traces_stage("rand_reload", "record_book", prof, files=8 if q else 64, runs=2 if q else 4, ops=300)
     return ck.finish("model_checking", LEVEL_TEXT, RULE + "generated histories containing a reload + recorded reload calls",
